@@ -139,6 +139,31 @@ func TestC19ForEachOrder(t *testing.T) {
 					hx(refDistance(c.query, got[i-1])), hx(refDistance(c.query, got[i])), c)
 			}
 		}
+		// a second enumeration of the same, unmodified cache relative to another key must be ordered for that key
+		q2 := genKeyRel(c.locus, 0).Draw(t, "secondQuery")
+		if len(c.entries) > 0 && rapid.Bool().Draw(t, "q2NearEntry") {
+			q2 = genKeyRel(c.entries[rapid.IntRange(0, len(c.entries)-1).Draw(t, "q2e")][:len(c.locus)], 0).Draw(t, "secondQuery2")
+		}
+		var got2 [][]byte
+		cache.ForEach(q2, func(e kademlia.Entry[int]) bool {
+			got2 = append(got2, append([]byte{}, e.Key...))
+			return true
+		})
+		if len(got2) != len(c.entries) {
+			t.Fatalf("second ForEach (key %s) yielded %d entries, cache holds %d: %v", hx(q2), len(got2), len(c.entries), c)
+		}
+		for i := 1; i < len(got2); i++ {
+			if refCmp(q2, got2[i-1], got2[i]) > 0 {
+				t.Fatalf("second ForEach (key %s, after one for %s) out of order at %d: %s before %s; %v", hx(q2), hx(c.query), i, hx(got2[i-1]), hx(got2[i]), c)
+			}
+		}
+		if cl2 := cache.Closest(q2); cl2 != nil {
+			for _, e := range c.entries {
+				if refCmp(q2, e, cl2.Key) < 0 {
+					t.Fatalf("Closest(%s)=%s after an enumeration for %s, but %s is nearer; %v", hx(q2), hx(cl2.Key), hx(c.query), hx(e), c)
+				}
+			}
+		}
 		// Closest: a true minimum.
 		cl := cache.Closest(c.query)
 		if len(c.entries) == 0 {
